@@ -3,7 +3,7 @@ CONSTANTS
   Names = {"n1", "n2"}
   SizeSel = "small"
   Limit = 2
-  Single = FALSE
+  FName = "pak01_dir.vpk"
   ArchIdx <- IdxN0
   NArch = 2
   Cs <- Cs23
